@@ -378,3 +378,95 @@ func MethodLabel(m string) string {
 	}
 	return "unknown"
 }
+
+// ParseInsertionDoc / ParseDeletionDoc: our own strict reader of the documented parameter JSON
+// (0x-hex strings, JSON numbers for indices), used to judge what the CLI prints.
+func ParseInsertionDoc(b []byte) (*oracle.InsertionWitness, error) {
+	var d insDoc
+	if err := json.Unmarshal(b, &d); err != nil {
+		return nil, err
+	}
+	w := &oracle.InsertionWitness{Start: new(big.Int).SetUint64(uint64(d.StartIndex))}
+	var err error
+	if w.InputHash, err = unhx(d.InputHash); err != nil {
+		return nil, err
+	}
+	if w.Pre, err = unhx(d.PreRoot); err != nil {
+		return nil, err
+	}
+	if w.Post, err = unhx(d.PostRoot); err != nil {
+		return nil, err
+	}
+	if w.Comms, err = unhxs(d.IdComms); err != nil {
+		return nil, err
+	}
+	for _, row := range d.Proofs {
+		r, err := unhxs(row)
+		if err != nil {
+			return nil, err
+		}
+		w.Paths = append(w.Paths, r)
+	}
+	if len(w.Paths) != len(w.Comms) {
+		return nil, fmt.Errorf("%d merkle proofs for %d commitments", len(w.Paths), len(w.Comms))
+	}
+	return w, nil
+}
+
+func ParseDeletionDoc(b []byte) (*oracle.DeletionWitness, error) {
+	var d delDoc
+	if err := json.Unmarshal(b, &d); err != nil {
+		return nil, err
+	}
+	w := &oracle.DeletionWitness{}
+	for _, ix := range d.Indices {
+		w.Indices = append(w.Indices, new(big.Int).SetUint64(uint64(ix)))
+	}
+	var err error
+	if w.InputHash, err = unhx(d.InputHash); err != nil {
+		return nil, err
+	}
+	if w.Pre, err = unhx(d.PreRoot); err != nil {
+		return nil, err
+	}
+	if w.Post, err = unhx(d.PostRoot); err != nil {
+		return nil, err
+	}
+	if w.Items, err = unhxs(d.IdComms); err != nil {
+		return nil, err
+	}
+	for _, row := range d.Proofs {
+		r, err := unhxs(row)
+		if err != nil {
+			return nil, err
+		}
+		w.Paths = append(w.Paths, r)
+	}
+	if len(w.Paths) != len(w.Indices) || len(w.Items) != len(w.Indices) {
+		return nil, fmt.Errorf("array lengths differ: %d indices, %d items, %d merkle proofs", len(w.Indices), len(w.Items), len(w.Paths))
+	}
+	return w, nil
+}
+
+func unhx(s string) (*big.Int, error) {
+	if !strings.HasPrefix(s, "0x") || len(s) < 3 {
+		return nil, fmt.Errorf("%q is not a 0x-hexadecimal number", s)
+	}
+	v, ok := new(big.Int).SetString(s[2:], 16)
+	if !ok {
+		return nil, fmt.Errorf("%q is not a 0x-hexadecimal number", s)
+	}
+	return v, nil
+}
+
+func unhxs(ss []string) ([]*big.Int, error) {
+	out := make([]*big.Int, len(ss))
+	for i, s := range ss {
+		v, err := unhx(s)
+		if err != nil {
+			return nil, err
+		}
+		out[i] = v
+	}
+	return out, nil
+}
